@@ -781,7 +781,8 @@ pub fn payload(rng: &mut Rng, n: usize, kind: u64) -> Vec<u8> {
 
 pub fn random_history(rng: &mut Rng, cap: usize, len: usize, with_abort: bool, with_body_drop: bool) -> Vec<Op> {
     let mut ops = vec![];
-    let sizes = [0usize, 1, cap.saturating_sub(1), cap, cap + 1, 2 * cap, 3 * cap];
+    // (… and writes of many chunks at once, on and off a chunk boundary)
+    let sizes = [0usize, 1, cap.saturating_sub(1), cap, cap + 1, 2 * cap, 3 * cap, 8 * cap, 9 * cap + 1, 37, 16 * cap + 5];
     let kind = rng.next();
     for _ in 0..len {
         let sz = (*rng.pick(&sizes)).min(300_000);
